@@ -4,8 +4,7 @@ package main
 //
 // Two case kinds:
 //
-//	L <src-hex>              result: "pos,line,col" of every token of parser.LexToList (space separated;
-//	                         the EOF token as "eof,line")
+//	L <src-hex>              result: "pos,line,col" of every token of parser.LexToList (space separated)
 //	E <P|R> <src-hex> <off>  a program with a planted parse (P) / runtime (R) error whose offending
 //	                         token starts at byte offset <off> ("eof": the EOF token);
 //	                         result: "line,col" carried by the parser.Error / util.RuntimeError
@@ -32,12 +31,6 @@ func c18Lex(src string) string {
 	}
 	out := make([]string, len(toks))
 	for i, t := range toks {
-		if t.ID == parser.TokenEOF {
-			// EOF has no first character: the property constrains neither its Pos nor its column
-			// (both are left over from the previous token); only the line is compared
-			out[i] = fmt.Sprintf("eof,%d", t.Lline)
-			continue
-		}
 		out[i] = fmt.Sprintf("%d,%d,%d", t.Pos, t.Lline, t.Lpos)
 	}
 	return strings.Join(out, " ")
@@ -52,9 +45,6 @@ func c18Err(kind, src, off string) string {
 		pe, ok := err.(*parser.Error)
 		if !ok {
 			return fmt.Sprintf("OTHER %T", err)
-		}
-		if off == "eof" {
-			return fmt.Sprintf("%d,eof", pe.Line)
 		}
 		return fmt.Sprintf("%d,%d", pe.Line, pe.Pos)
 	}
